@@ -1,7 +1,7 @@
 (* C07 -- Smith normal forms and cycle bases.  Theorem statements only. *)
 From Coq Require Import ZArith List.
 From mathcomp Require Import all_ssreflect all_algebra.
-From SV Require Import Names Rep Complex Homology ListMat SnfCount Rank Betti.
+From SV Require Import Names Rep Complex Homology ListMat SnfCount Rank Betti RepInv ZCycles ZProofs ZProofs2 Shapes ShapesReach.
 
 (* smithNormalForm(k) has the shape of the order-k boundary operator, ones on a leading stretch of
    the diagonal whose length is that operator's GF(2) rank, zeros elsewhere -- for every
@@ -13,3 +13,20 @@ Theorem C07_snf_shape :
   nr = nrows B /\ nc = ncols B /\ pidform nr nc (rk B) D.
 Proof. exact snf_pidform. Qed.
 Print Assumptions C07_snf_shape.
+
+(* Z(k) returns exactly as many chains as the nullity of the order-k boundary operator
+   (number of columns minus GF(2) rank) -- for every representation and order *)
+Theorem C07_Z_count :
+  forall r k, length (Z1 r k) = (length (simplicesOfOrder r k) - rk (boundaryOperator r k))%coq_nat.
+Proof. exact Z1_count. Qed.
+Print Assumptions C07_Z_count.
+
+(* every chain returned by Z(k) has empty boundary: the mod-2 sum of the boundary-operator columns
+   of its members (a member mentioned twice counted twice) is zero in every row -- for every
+   complex satisfying the shape invariant, i.e. every complex of every history (C03) *)
+Theorem C07_Z_chains_are_cycles :
+  forall r k ch, sinv r -> List.In ch (Z1 r k) ->
+  forall i, (i < nrows (boundaryOperator r k))%coq_nat -> vsum name (colval r k) ch i = false.
+Proof. exact Z1_are_cycles. Qed.
+Print Assumptions C07_Z_chains_are_cycles.
+(* Not proved (tested by the oracle on every run): linear independence of the returned chains. *)
